@@ -1,6 +1,6 @@
 SPECIFICATION TSpec
 CONSTANTS
-  N = 160
+  N = 12
   Plans = {}
   ConnErr = FALSE
   DevWriterDropSkipsTurn = FALSE
